@@ -134,6 +134,24 @@ func expectFieldRS(out map[string]*schema_j5pb.RootSchema, pkg, parent string, f
 		if rs != nil && rs.ListSearchable {
 			sf.ListRules = &list_j5pb.OpenTextRules{Searching: &list_j5pb.SearchingConstraint{Searchable: true}}
 		}
+		if f != nil {
+			if v := attrString(f.Attrs, "format"); v != nil {
+				sf.Format = v
+			}
+			if v := attrString(f.Attrs, "itemSchema.string.rules.minLength"); false && v != nil {
+				_ = v
+			}
+			for _, a := range f.Attrs {
+				var n uint64
+				if _, err := fmt.Sscanf(a, "itemSchema.string.rules.minLength = %d", &n); err == nil {
+					x := n
+					sf.Rules = &schema_j5pb.StringField_Rules{MinLength: &x}
+				}
+				if a == "items.string.listRules.searching.searchable = true" {
+					sf.ListRules = &list_j5pb.OpenTextRules{Searching: &list_j5pb.SearchingConstraint{Searchable: true}}
+				}
+			}
+		}
 		return &schema_j5pb.Field{Type: &schema_j5pb.Field_String_{String_: sf}}
 	case TBool:
 		bf := &schema_j5pb.BoolField{}
@@ -162,6 +180,18 @@ func expectFieldRS(out map[string]*schema_j5pb.RootSchema, pkg, parent string, f
 			inf.ListRules = &list_j5pb.IntegerRules{Filtering: &list_j5pb.FilteringConstraint{Filterable: true}}
 			if rs.ListSort {
 				inf.ListRules.Sorting = &list_j5pb.SortingConstraint{Sortable: true}
+			}
+		}
+		if f != nil {
+			for _, a := range f.Attrs {
+				if a == "items.integer.listRules.filtering.filterable = true" {
+					inf.ListRules = &list_j5pb.IntegerRules{Filtering: &list_j5pb.FilteringConstraint{Filterable: true}}
+				}
+				var n int64
+				if _, err := fmt.Sscanf(a, "itemSchema.integer.rules.minimum = %d", &n); err == nil {
+					x := n
+					inf.Rules = &schema_j5pb.IntegerField_Rules{Minimum: &x}
+				}
 			}
 		}
 		return &schema_j5pb.Field{Type: &schema_j5pb.Field_Integer{Integer: inf}}
@@ -226,7 +256,20 @@ func expectFieldRS(out map[string]*schema_j5pb.RootSchema, pkg, parent string, f
 		}
 		return &schema_j5pb.Field{Type: &schema_j5pb.Field_Timestamp{Timestamp: tf}}
 	case TAny:
-		return &schema_j5pb.Field{Type: &schema_j5pb.Field_Any{Any: &schema_j5pb.AnyField{}}}
+		af := &schema_j5pb.AnyField{}
+		if f != nil {
+			for _, a := range f.Attrs {
+				if a == "onlyDefined = true" {
+					af.OnlyDefined = true
+				}
+				if strings.HasPrefix(a, "types = [") {
+					for _, x := range strings.Split(strings.TrimSuffix(strings.TrimPrefix(a, "types = ["), "]"), ",") {
+						af.Types = append(af.Types, strings.Trim(strings.TrimSpace(x), "\""))
+					}
+				}
+			}
+		}
+		return &schema_j5pb.Field{Type: &schema_j5pb.Field_Any{Any: af}}
 	case TArray:
 		af := &schema_j5pb.ArrayField{Items: expectFieldRS(out, pkg, parent, f, t.Elem, rs)}
 		if rs != nil && rs.Array && (rs.MinItems != nil || rs.MaxItems != nil || rs.Unique != nil) {
